@@ -12,9 +12,10 @@
   `poolLess`, `minus`, `ipRangeSepChar`, `vlanBits`) is `Galaxy.Generated.Nets`, regenerated from /repo.
 -/
 import Galaxy.Lemmas.NetsPool
+import Galaxy.Lemmas.RangeEdit
 
 namespace Galaxy.Props.C20
-open Galaxy.Nets Galaxy.Pool Galaxy.Generated.Nets
+open Galaxy.Nets Galaxy.Pool Galaxy.Generated.Nets Galaxy.RangeEdit
 
 /-! ## Accepted configurations are well formed -/
 
@@ -254,7 +255,114 @@ theorem fact_confFields : confFields =
      ("IPs", "[]string", "ips"), ("Subnet", "*nets.IPNet", "subnet"), ("Gateway", "net.IP", "gateway"),
      ("Vlan", "uint16", "vlan,omitempty")] := by decide
 
+/-! ## A reload whose store step fails is retried -/
+
+/-- With a working store `ensureConfStore` is `ensureConf` (the theorems above apply unchanged). -/
+theorem store_ok_is_ensureConf {τ : Type} [DecidableEq τ] (decode : τ → Except Err (List Pool)) (s : Reloader τ)
+    (newConf : τ) : ensureConfStore decode s newConf true = ensureConf decode s newConf := by
+  unfold ensureConfStore ensureConf
+  split
+  · rfl
+  · split <;> rfl
+
+/-- "Anything else is rejected with an error and changes nothing" also for the store step: a reload whose
+    `ConfigurePool` fails leaves the remembered text AND the served pools exactly as they were — in particular
+    `lastConf` is NOT advanced — … -/
+theorem store_failure_changes_nothing {τ : Type} [DecidableEq τ] (decode : τ → Except Err (List Pool))
+    (s : Reloader τ) (newConf : τ) : (ensureConfStore decode s newConf false).1 = s := by
+  unfold ensureConfStore
+  split
+  · rfl
+  · split <;> rfl
+
+/-- … so the next poll of the SAME text, once the store works again, applies the configuration: after any number
+    of failed attempts an accepted new text is configured, not skipped as "unchanged". -/
+theorem store_failure_retried {τ : Type} [DecidableEq τ] (decode : τ → Except Err (List Pool)) (s : Reloader τ)
+    (newConf : τ) (ps : List Pool) (hne : newConf ≠ s.lastConf) (hd : decode newConf = .ok ps) (n : Nat) :
+    ensureConfStore decode (Nat.rec s (fun _ acc => (ensureConfStore decode acc newConf false).1) n) newConf true =
+      ({ lastConf := newConf, pools := sortPools ps }, .configured) := by
+  have hs : (Nat.rec s (fun _ acc => (ensureConfStore decode acc newConf false).1) n : Reloader τ) = s := by
+    induction n with
+    | zero => rfl
+    | succ k ih => show (ensureConfStore decode _ newConf false).1 = s; rw [ih]; exact store_failure_changes_nothing decode s newConf
+  rw [hs]
+  simp [ensureConfStore, hne, hd]
+
+/-! ## Editing an accepted pool: `InsertIP` / `RemoveIP` keep "sorted, disjoint, not mergeable" and change
+      membership by exactly the one address (floatingip.go; the model `Galaxy.RangeEdit` is run against the real
+      methods by the C20 correspondence, ops `insert` / `remove`) -/
+
+/-- Every accepted pool's range list is canonical: non-inverted ranges, strictly increasing, and more than one
+    address apart — the invariant the editing methods are entitled to assume. -/
+theorem accepted_canon (raw : RawPool) (p : Pool) (h : decodePool raw = .ok p) : Canon p.ranges := by
+  obtain ⟨hw, _, hs⟩ := accepted_wf raw p h
+  have gen : ∀ (rs : List Range) (lb : Nat), (∀ r ∈ rs, lb ≤ r.first.toNat ∧ r.first.toNat ≤ r.last.toNat) →
+      rs.Pairwise (fun a b => a.last.toNat + 1 < b.first.toNat) → CanonFrom lb rs := by
+    intro rs
+    induction rs with
+    | nil => intro _ _ _; trivial
+    | cons r t ih =>
+      intro lb hw hs
+      have hs' := List.pairwise_cons.1 hs
+      exact ⟨(hw r (by simp)).1, (hw r (by simp)).2,
+        ih _ (fun n hn => ⟨by have := hs'.1 n hn; omega, (hw n (by simp [hn])).2⟩) hs'.2⟩
+  exact gen _ 0 (fun r hr => ⟨Nat.zero_le _, hw r hr⟩) hs
+
+/-- `RemoveIP` on a canonical list: the result is canonical again and holds exactly the old addresses minus `ip`
+    — for EVERY list, address and position (single-address range dropped, either end shrunk, range split). -/
+theorem remove_exact (rs rs' : List Range) (ip : IPv4) (hc : Canon rs) (h : removeRanges ip rs = some rs') :
+    Canon rs' ∧ ∀ x, rangesContain rs' x = true ↔ (rangesContain rs x = true ∧ x ≠ ip) :=
+  ⟨removeRanges_canon ip rs rs' 0 hc h, removeRanges_mem ip rs rs' 0 hc h⟩
+
+/-- `RemoveIP` answers `false` (and leaves the list alone) exactly for addresses the pool does not hold. -/
+theorem remove_refuses_iff (rs : List Range) (ip : IPv4) : removeRanges ip rs = none ↔ rangesContain rs ip = false :=
+  removeRanges_none_iff ip rs
+
+/-- `InsertIP` on a canonical list: the result is canonical again (so neighbours that became adjacent were
+    merged) and holds exactly the old addresses plus `ip`. -/
+theorem insert_exact (rs rs' : List Range) (ip : IPv4) (hc : Canon rs) (h : insertRanges ip rs = some rs') :
+    Canon rs' ∧ ∀ x, rangesContain rs' x = true ↔ (rangesContain rs x = true ∨ x = ip) :=
+  ⟨insertRanges_canon ip rs rs' 0 hc (Nat.zero_le _) h, insertRanges_mem ip rs rs' 0 hc h⟩
+
+/-- `InsertIP` answers `false` exactly for addresses the (canonical) pool already holds. -/
+theorem insert_refuses_iff (rs : List Range) (ip : IPv4) (hc : Canon rs) :
+    insertRanges ip rs = none ↔ rangesContain rs ip = true :=
+  insertRanges_none_iff ip rs 0 hc
+
+/-- The hypothesis `Canon` of `insert_refuses_iff` is necessary: on an unsorted list the loop inserts an address
+    a later range already holds (here 0.0.0.3 into [5, 1–9]). -/
+theorem insert_noncanon_counter :
+    rangesContain [⟨5#32, 5#32⟩, ⟨1#32, 9#32⟩] 3#32 = true ∧
+    insertRanges 3#32 [⟨5#32, 5#32⟩, ⟨1#32, 9#32⟩] = some [⟨3#32, 3#32⟩, ⟨5#32, 5#32⟩, ⟨1#32, 9#32⟩] := by decide
+
+/-- Insert then remove (and remove then insert) give back a canonical list with exactly the original addresses. -/
+theorem insert_remove_roundtrip (rs rs' rs'' : List Range) (ip : IPv4) (hc : Canon rs)
+    (h1 : insertRanges ip rs = some rs') (h2 : removeRanges ip rs' = some rs'') :
+    Canon rs'' ∧ ∀ x, rangesContain rs'' x = true ↔ rangesContain rs x = true := by
+  obtain ⟨c1, m1⟩ := insert_exact rs rs' ip hc h1
+  obtain ⟨c2, m2⟩ := remove_exact rs' rs'' ip c1 h2
+  refine ⟨c2, fun x => ?_⟩
+  have hno : rangesContain rs ip = true → False := fun hh => by
+    have := (insert_refuses_iff rs ip hc).2 hh; rw [this] at h1; cases h1
+  rw [m2, m1]
+  constructor
+  · rintro ⟨hx | hx, hne⟩
+    · exact hx
+    · exact absurd hx hne
+  · intro hx
+    exact ⟨Or.inl hx, fun e => hno (e ▸ hx)⟩
+
+/-- Both methods refuse an address outside the pool's subnet and then leave the ranges untouched. -/
+theorem edit_outside_subnet_refused (gw : IPv4) (pl : Nat) (ip : IPv4) (rs : List Range)
+    (h : Galaxy.Pool.inSubnet gw pl ip = false) : insertIP gw pl ip rs = none ∧ removeIP gw pl ip rs = none := by
+  simp [insertIP, removeIP, h]
+
 /-! ## Non-vacuity: the hypotheses above are satisfiable by non-trivial inputs -/
+
+/-- a canonical list on which insert merges two neighbours and remove splits a range -/
+example : Canon [⟨1#32, 3#32⟩, ⟨5#32, 9#32⟩] ∧ insertRanges 4#32 [⟨1#32, 3#32⟩, ⟨5#32, 9#32⟩] = some [⟨1#32, 9#32⟩] ∧
+    removeRanges 7#32 [⟨1#32, 9#32⟩] = some [⟨1#32, 6#32⟩, ⟨8#32, 9#32⟩] :=
+  ⟨by simp [Canon, CanonFrom], by decide, by decide⟩
 
 /-- an accepted raw pool (the documentation's example plus a single-address range), `prefixLen ≠ 0` -/
 example : ∃ raw p, decodePool raw = .ok p ∧ p.prefixLen ≠ 0 ∧ p.ranges.length = 2 ∧ (poolSize p).toNat = 241 :=
